@@ -24,7 +24,7 @@ OPS = {
     "limit": ["to_bdd", "from_expression"],
     "conv.EB": ["to_bdd", "from_expression"], "conv.TB": ["to_bdd", "from_table"],
     "conv.BT": ["to_table", "from_bdd"], "conv.BE": ["to_expression", "from_bdd"],
-    "parse": ["py_new"], "ctor.bad": ["py_new"], "csv.from": ["from_csv_string"], "csv.to0": ["to_csv"],
+    "parse": ["py_new"], "ctor.bad": ["py_new"], "csv.from": ["from_csv_string"], "csv.filebytes": ["from_csv_file"], "csv.to0": ["to_csv"],
     "render": ["to_string_formatted"], "row": ["row"], "nodecount": ["node_count"],
     "mk.const": ["mk_const"], "mk.literal": ["mk_literal"], "var": ["var", "vars"], "bool": ["bool"],
 }
@@ -93,6 +93,11 @@ def run(pid, tier, seed, ctx):
     for t in texts:
         buckets.setdefault("parse", []).append(f"C19 parse x{hexs(t)}")
     buckets["ctor.bad"] = ["C19 ctor.bad"]
+    # the file entry point: valid text, Latin-1 bytes, a stray 0xFF, a BOM, CRLF, an empty file, no file
+    for raw in [b"a,r\n0,1\n1,0\n", b"\xe9,r\n0,1\n1,0\n", b"a,r\n0,\xff\n1,0\n", b"\xef\xbb\xbfa,r\n0,1\n1,0\n",
+                b"a,r\r\n0,1\r\n1,0\r\n", b"", b"a,r\n0,1\n", "é,r\n0,1\n1,0\n".encode()]:
+        buckets.setdefault("csv.filebytes", []).append(f"C19 csv.filebytes h{raw.hex()}")
+    buckets.setdefault("csv.filebytes", []).append("C19 csv.filebytes -")
     # the one failing conversion: more variables than lib-bdd supports (exception kind must be RuntimeError)
     buckets["limit"] = ["C19 limit 65534", "C19 limit 65536", "C19 limit 70000"]
     for n in ["a", "x_10", "é", "-"]:
